@@ -212,6 +212,34 @@ def mk_copy(H, W):
     return h
 
 
+def mk_hash_history(H, W):
+    """equal states hash alike whatever was asked before: the next state of an input that had been hashed (or compared, or used
+    as a dictionary key) equals and hashes like the next state of a never-touched equal input"""
+    def h(sx):
+        reset_gv_debug(False)
+        sg = COPY9 if H * W <= 2 else [e for e in COPY9 if e[0] in ('Floor', 'Door(CLOSED,NONE)', 'Box(Key(YELLOW))')]
+        state, world = lazy_state(sx, H, W, sg, held_sigma=[e for e in COPY9 if e[0].startswith('Key')], orientations=[Orientation.F, Orientation.L])
+        env = make_env(H, W, ALL_TYPES, set(Color), 'chain[move,turn,actuate_door,actuate_box,pickndrop]', reward=LOCAL_REWARDS['living_reward'],
+                       termination=trivial_termination())
+        untouched = fast_copy(state)
+        before = sx.choice('before', ['hash', 'dict-key', 'eq', 'nothing'])
+        if before == 'hash':
+            hash(state), hash(state.grid), hash(state.agent)
+        elif before == 'dict-key':
+            {state: 1}[state]
+        elif before == 'eq':
+            state == fast_copy(state)
+        a = sx.choice('a', ACTIONS)
+        n1, _, _ = env.functional_step(state, a)
+        n2, _, _ = env.functional_step(untouched, a)
+        sx.cover('hash-history-' + before)
+        sx.check(n1 == n2, 'same-step-same-next-state')
+        sx.check(hash(n1) == hash(n2) and hash(n1.grid) == hash(n2.grid) and hash(n1.agent) == hash(n2.agent), 'equal-next-states-hash-alike-whatever-was-hashed-before')
+        sx.check(len({n1, n2}) == 1 and n2 in {n1: 0}, 'equal-states-are-one-dictionary-key')
+        sx.check(hash(state) == hash(untouched) and state == untouched, 'input-still-equals-and-hashes-like-its-untouched-copy')
+    return h
+
+
 # ---------------------------------------------------------------------------
 # history independence of the memoised helpers
 
@@ -330,6 +358,8 @@ def obligations(tier):
             obs.append(Obligation(f'termination-{tn}-{H}x{W}', mk_reward(tn, t, H, W, small, True), dict(component=tn, H=H, W=W)))
     for (H, W) in ([(1, 1), (1, 2), (2, 2)] if q else [(1, 1), (1, 2), (2, 2), (2, 3)]):
         obs.append(Obligation(f'copy-{H}x{W}', mk_copy(H, W), dict(H=H, W=W, alphabet=[e[0] for e in COPY9])))
+    for (H, W) in ([(1, 2), (2, 2)] if q else [(1, 2), (2, 2), (2, 3)]):
+        obs.append(Obligation(f'hash-history-{H}x{W}', mk_hash_history(H, W), dict(H=H, W=W)))
     for kind in ('manhattan', 'euclidean', 'proportional', 'shortest_path', 'memory'):
         for (H, W) in ([(2, 2)] if q else [(2, 2), (2, 3)]):
             obs.append(Obligation(f'scanning-reward-{kind}-{H}x{W}', mk_scanning_reward(kind, H, W), dict(component=kind, H=H, W=W)))
